@@ -6,7 +6,7 @@ ALL = ["C%02d" % i for i in range(1, 21)]
 PARTIAL_NOTE = {
 }
 NOT_YET = {}  # id -> reason, for properties without a registered check
-hooks_commits = subprocess.run("git -C /repo log --format=%h --grep='^verif hooks' ", shell=True, capture_output=True, text=True).stdout.split()
+hooks_commits = subprocess.run("git -C /repo log --format=%h --grep='^verif hook' ", shell=True, capture_output=True, text=True).stdout.split()
 checks = []
 for pid in ALL:
     if pid not in PROPS or not PROPS[pid]["theorems"]:
